@@ -2,7 +2,7 @@
    type grammar / class tables of TyModel.v; stdlib primitives are oracles returning a value or the exception
    class CPython raises).  All statements are for every class table E and every oracle Q. *)
 From Coq Require Import List String ZArith Bool.
-From Verif Require Import Core TyModel Errs ErrsProofs ErrsTy ErrsTyProofs.
+From Verif Require Import Core TupleIdx TyModel Errs ErrsProofs ErrsTy ErrsTyProofs.
 Import ListNotations.
 Open Scope string_scope.
 Open Scope list_scope.
@@ -88,6 +88,15 @@ Theorem C05_tuplefix_exn : forall E Q CF us l e, ue E Q CF (VList l) (UTupleFix 
   (e = XIndexError /\ (List.length l < List.length us)%nat).
 Proof. exact tuplefix_exn. Qed.
 Print Assumptions C05_tuplefix_exn.
+
+(* Tuple[pre..., *Tuple[t, ...], post...] on a list: IndexError for a head / tail position past the end, or an
+   item's own exception unchanged (TypeError only for a malformed index plan, which cu never builds) *)
+Theorem C05_tupleu_var_exn : forall E Q CF plan pre u post l e,
+  ue E Q CF (VList l) (UTupleU plan pre (UTupleVar u) post) = Exn e ->
+  e = XIndexError \/ e = XTypeError \/
+  exists u' x, (In u' pre \/ u' = u \/ In u' post) /\ In x l /\ ue E Q CF x u' = Exn e.
+Proof. exact tupleu_var_exn. Qed.
+Print Assumptions C05_tupleu_var_exn.
 
 Theorem C05_typeddict_exn : forall E Q CF c k kvs e,
   sfind E KTyped c = Some k ->
@@ -198,4 +207,16 @@ Example C05_typed_ex_config :
      = Exn (XExtraKeys [VStr "zz"; VInt 3] "Inner")
   /\ ue E0 Q0 CF0 (VDict [(VStr "a", VInt 1); (VStr "inner", VDict [(VStr "X", VInt 1); (VStr "zz", VInt 1)])]) (UData "Outer")
      = Exn (XInvalidFieldValue "inner" (VDict [(VStr "X", VInt 1); (VStr "zz", VInt 1)]) "Outer").
+Proof. repeat split; reflexivity. Qed.
+
+(* Tuple[int, *Tuple[int, ...], int] (cu of STupleU): short input -> IndexError; a bad item -> its own ValueError;
+   a scalar -> TypeError; a dict -> KeyError *)
+Definition tu_int : pdec := cu true (STupleU [SIntT] (STupleVar SIntT) [SIntT]).
+Example C05_typed_ex_tupleu :
+  ue E0 Q0 CF0 (VList [VInt 1; VInt 2; VInt 3; VInt 4]) tu_int = Ok (VTuple [VInt 1; VInt 2; VInt 3; VInt 4])
+  /\ ue E0 Q0 CF0 (VList []) tu_int = Exn XIndexError
+  /\ ue E0 Q0 CF0 (VList [VInt 1; VStr "q"; VInt 3]) tu_int = Exn XValueError
+  /\ ue E0 Q0 CF0 (VInt 5) tu_int = Exn XTypeError
+  /\ ue E0 Q0 CF0 (VDict [(VStr "k", VInt 1)]) tu_int = Exn XKeyError
+  /\ ue E0 Q0 CF0 (VDict [(VInt 0, VInt 1)]) tu_int = Exn XKeyError.
 Proof. repeat split; reflexivity. Qed.
